@@ -9,7 +9,7 @@ from props._fa_common import TRUSTED, ASSUMPTIONS, TECHNIQUE
 PROP = "C05"
 LEVEL = "proof"
 THEOREMS = {"Properties.C05": ["C05_regex_automaton", "C05_matcher", "C05_equiv_certificate", "C05_operator_spellings_from_source", "C05_precedence_instances",
-                             "C05_to_epsilon_nfa_model", "C05_to_cfg_model", "C05_parser_reads_minimal_text", "C05_accepts_code_path", "C05_str_round_trip", "C05_parser_mirror_reads_str_partial"],
+                             "C05_to_epsilon_nfa_model", "C05_to_cfg_model", "C05_parser_reads_minimal_text", "C05_accepts_code_path", "C05_str_round_trip", "C05_parser_mirror_reads_str"],
             "Properties.C05Tie": ["C05_to_cfg_rules_from_source"]}
 LEVEL_TEXT = ("Proof + correspondence: the denotation of regular expressions, the derivative matcher (proved exact) and the exact equivalence check are "
               "machine-checked for all expressions. The documented concrete syntax is given by a reference recursive-descent parser in Gallina which is "
@@ -22,7 +22,8 @@ LEVEL_TEXT = ("Proof + correspondence: the denotation of regular expressions, th
               "mirrored at component level (outer-parenthesis stripping, _compute_precedence, split and recursion, refusals) and the tree it builds is "
               "compared exactly with the mirror's and, by certified language equivalence, with the reference parser's on generated texts (minimal, "
               "redundant and doubled parentheses, all spacings, both operator spellings, escapes); ill-formed text must raise MisformedRegexError and "
-              "nothing else, exactly where the mirror does. No theorem relates the mirror to the reference parser; the tokeniser is not modelled.")
+              "nothing else, exactly where the mirror does. The mirror is proved to read back the text of str() of every expression "
+              "(C05_parser_mirror_reads_str); no general theorem relates it to the reference parser; the tokeniser is not modelled.")
 LEVEL_NOTE = "Trusted: Coq kernel; the reference parser as the reading of the documented grammar; Python harness (renders token lists to text)."
 RULE = ("generated expressions (depth <= 4; symbols of 1-3 characters, escaped operators, epsilon and $; both spellings of union and concatenation; minimal, "
         "redundant and doubled parentheses; with and without blanks around operators) + ill-formed texts (unbalanced, dangling or doubled operators, "
